@@ -14,28 +14,6 @@ import QmcProofs.HeatBath
 namespace Qmc.C02
 open Qmc
 
-/-- the total of a table of non-negative entries is non-negative … -/
-theorem sum_nonneg_of_nonneg : ∀ (ws : List Rat), (∀ w ∈ ws, 0 ≤ w) → 0 ≤ ws.sum
-  | [], _ => by simp
-  | w :: t, h => by
-    simp only [List.sum_cons]
-    have := sum_nonneg_of_nonneg t (fun y hy => h y (by simp [hy]))
-    have := h w (by simp)
-    linarith
-
-/-- … and dominates each entry -/
-theorem le_sum_of_mem : ∀ (ws : List Rat), (∀ w ∈ ws, 0 ≤ w) → ∀ (b : Nat), ws.getD b 0 ≤ ws.sum
-  | [], _, b => by simp
-  | w :: t, h, 0 => by
-    simp only [List.getD_cons_zero, List.sum_cons]
-    have := sum_nonneg_of_nonneg t (fun y hy => h y (by simp [hy]))
-    linarith
-  | w :: t, h, b + 1 => by
-    simp only [List.getD_cons_succ, List.sum_cons]
-    have := le_sum_of_mem t (fun y hy => h y (by simp [hy])) b
-    have := h w (by simp)
-    linarith
-
 /-- **Ratio with the table the code builds.** For every Hamiltonian with non-negative diagonal weights
 (any number of bonds, maxima of different bonds unrelated), every bond `b`, every rolling state, β > 0 and
 `n < L`: with `bw = make_bond_weights(H)` the heat-bath probabilities satisfy
